@@ -114,14 +114,15 @@ Definition field_centric (idf : idf_table) (fields : list efield) (n : nat) (mm 
   AOk (vadd mx (vscale (vadd summed (vscale mx (-1))) tie)).
 
 (* ---- parse_query_terms: term-centric iff every field tokenizes to the first field's count ---- *)
+(* parse_query_terms: the FIRST field fixes the number of search terms; any later field with a different number makes
+   the query field-centric (repair of D30: the count 0 used to double as "no field seen yet") *)
 Definition num_search_terms (fields : list efield) : nat :=
-  fold_left (fun acc f => if Nat.eqb acc 0 then length (ef_terms f) else acc) fields O.
+  match fields with [] => O | f0 :: _ => length (ef_terms f0) end.
 Definition is_term_centric (fields : list efield) : bool :=
-  (* elif field_num_search_terms != num_search_terms: term_centric = False — evaluated as the loop runs *)
-  snd (fold_left (fun st f => let '(acc, tc) := st in
-                    let k := length (ef_terms f) in
-                    if Nat.eqb acc 0 then (k, tc) else if Nat.eqb k acc then (acc, tc) else (acc, false))
-                 fields (O, true)).
+  match fields with
+  | [] => true
+  | f0 :: rest => forallb (fun f => Nat.eqb (length (ef_terms f)) (length (ef_terms f0))) rest
+  end.
 
 (* ---- phrase phases on the view of matching rows ---- *)
 Fixpoint shingles2 (ts : list N) : list (list N) :=
